@@ -118,7 +118,9 @@ func rulePanic(w *World, r *Report, pkg *ssa.Package) {
 	for fn := range scope {
 		fns = append(fns, fn)
 	}
-	sort.Slice(fns, func(i, j int) bool { return fnName(fns[i]) < fnName(fns[j]) || (fnName(fns[i]) == fnName(fns[j]) && fns[i].Pos() < fns[j].Pos()) })
+	sort.Slice(fns, func(i, j int) bool {
+		return fnName(fns[i]) < fnName(fns[j]) || (fnName(fns[i]) == fnName(fns[j]) && fns[i].Pos() < fns[j].Pos())
+	})
 	if len(fns) < 60 {
 		infra("R-PANIC: only %d functions of %s are in scope", len(fns), pkg.Pkg.Path())
 	}
@@ -127,6 +129,7 @@ func rulePanic(w *World, r *Report, pkg *ssa.Package) {
 	enums := closedEnums(w, pkg)
 	constructed := constructedPathKinds(w, pkg)
 	nSites, nS1, nS2, nS3 := 0, 0, 0, 0
+	entryF := newEntryFacts(w, enums)
 	for _, fn := range fns {
 		if fn.Synthetic != "" {
 			continue
@@ -135,7 +138,7 @@ func rulePanic(w *World, r *Report, pkg *ssa.Package) {
 		var facts *Facts
 		getFacts := func() *Facts {
 			if facts == nil {
-				facts = NewFacts(fn, enums)
+				facts = entryF.factsOf(fn)
 			}
 			return facts
 		}
@@ -279,7 +282,7 @@ func indexSafe(fs *Facts, in ssa.Instruction) (string, bool) {
 		if arr, ok := x.Type().Underlying().(*types.Array); ok {
 			return arr.Len(), true
 		}
-		return s.get(term{strip(x), true}).minVal(), true
+		return s.get(term{v: strip(x), isLen: true}).minVal(), true
 	}
 	idxBounds := func(v ssa.Value) (int64, int64) {
 		lo, hi, ok := fs.bounds(v, b)
@@ -310,6 +313,14 @@ func indexSafe(fs *Facts, in ssa.Instruction) (string, bool) {
 		}
 		if lo >= 0 && hi < minLen {
 			return fmt.Sprintf("index in [%d,%d], length at least %d", lo, hi, minLen), true
+		}
+		// relational upper bound: a guard compared the index with the length
+		if t, off, isC, ok := termOf(I); ok && !isC && lo >= 0 {
+			if _, isSl := X.Type().Underlying().(*types.Slice); isSl || isStringType(X.Type()) {
+				if d := s.diffHi(t, term{v: strip(X), isLen: true}); d != math.MaxInt64 && sat(d, off) <= -1 {
+					return fmt.Sprintf("index at least %d and a dominating guard bounds it below the length", lo), true
+				}
+			}
 		}
 		return fmt.Sprintf("index in [%s,%s], length at least %d", b64(lo), b64(hi), minLen), false
 	case *ssa.Slice:
